@@ -137,5 +137,12 @@ theorem die_ctor_reread (ε : Die.Eps α) (inp : Die.DieIn α) (fixed : List (Re
   · simp only [Die.dieCore, Die.gridOf, Die.occRects, hb, hs]; rfl
   · simp only [Die.detPicks, Die.gridOf, Die.occRects, hb, hs]; rfl
 
+/-- the die constructor model's transcription of `valid_identifier` is the one of the netlist / producer models. -/
+theorem die_validIdentifier_eq (s : String) : Die.validIdentifier s = FV.validIdent s := by
+  unfold Die.validIdentifier FV.validIdent validIdentChars
+  cases s.toList with
+  | nil => rfl
+  | cons c cs => rfl
+
 end ctor
 end FV.Prod
